@@ -70,7 +70,7 @@ Definition AtM (s:sstate) (reg:rvalue) (r:rt) (c:context) (f:frame) (rest:list f
   Mach s r c f rest /\ length below = f_base f /\ exists top, c_values c = top ++ below /\ reg_rep reg top.
 
 Definition BlockRuns (s:sstate) (reg:rvalue) (code:list instr) (reg':rvalue) (s':sstate) : Prop :=
-  forall r c f rest below pre post, AtM s reg r c f rest below ->
+  forall r c f rest below pre post, AtM s reg r c f rest below -> Fresh c below ->
     f_code f = pre ++ code ++ post -> f_pos f = length pre ->
     exists r' c' f' rest', Steps r r' /\ AtM s' reg' r' c' f' rest' below /\
       moved f f' /\ f_pos f' = f_pos f + length code /\ Forall2 kept rest rest'.
@@ -186,8 +186,8 @@ Proof.
         split; [apply vars_match_mvars|split; [|reflexivity]]. cbn. unfold cur_ns. rewrite EF. inversion F as [|sc f0 scs fs (V & NS & BB) F' E1 E2]; subst.
         unfold cur_ns_of. rewrite <- E1. exact NS.
       + split; [cbn; lia|exact D].
-    - split; [reflexivity|]. exists [VNil]. split; [reflexivity|]. split; [reflexivity|discriminate]. }
-  destruct (BR r1 c1 nf (fc :: rest) (c_values c0) [] [] A) as (r2 & c2 & f2 & rest2 & S2 & A2 & MV & P2 & K2).
+    - split; [reflexivity|]. exists [VNil]. split; [reflexivity|]. split; [reflexivity|]. split; [discriminate|left; reflexivity]. }
+  destruct (BR r1 c1 nf (fc :: rest) (c_values c0) [] [] A (or_intror eq_refl)) as (r2 & c2 & f2 & rest2 & S2 & A2 & MV & P2 & K2).
   { cbn. rewrite app_nil_r. reflexivity. }
   { reflexivity. }
   destruct A2 as ((G2 & EF2 & M2 & B2 & D2) & LB2 & top & EV2 & RR).
@@ -337,7 +337,7 @@ Qed.
 (* ENDSTATEMENT empties the region *)
 Lemma end_run s reg r c f rest below pre post : AtM s reg r c f rest below ->
   f_code f = pre ++ IEnd :: post -> f_pos f = length pre ->
-  exists r' c', Steps r r' /\ AtM s RNone r' c' (set_pos f (S (f_pos f))) rest below.
+  exists r' c', Steps r r' /\ AtM s RNone r' c' (set_pos f (S (f_pos f))) rest below /\ Fresh c' below.
 Proof.
   intros ((G & EF & M & B & D) & LB & top & EV & RR) EC EP.
   assert (N : nth_error (f_code f) (f_pos f) = Some IEnd) by (rewrite EC, EP; apply nth_error_mid).
@@ -347,7 +347,7 @@ Proof.
     replace (length top + length below - length below) with (length top) by lia. rewrite skipn_app, skipn_all, Nat.sub_diag. reflexivity. }
   destruct (run_one r c f rest IEnd _ G EF N EX) as [S1 G1].
   { destruct G as (_ & _ & _ & _ & _ & _ & SU). exact SU. }
-  eexists _, _. split; [exact S1|]. split.
+  exists (upd_cur r (set_values c1 below)), (set_values c1 below). split; [exact S1|]. split; [|left; reflexivity]. split.
   - split; [exact G1|]. split; [reflexivity|]. split; [apply match_upd, match_set_pos; exact M|].
     split; [cbn; lia|rewrite defects_upd_cur; exact D].
   - split; [exact LB|]. exists []. split; reflexivity.
@@ -572,13 +572,13 @@ Proof.
     exists r2, c2, f2, rest2. split; [eapply steps_trans; eassumption|]. split; [exact M2|].
     split; [rewrite EV2, EV1, <- app_assoc; reflexivity|]. split; [eapply moved_trans; eassumption|].
     split; [rewrite P2, P1; lia|eapply kept_all_trans; eassumption].
-  - (* statement: expression *) intros s reg e v s1 HE IHe r c f rest below pre post (MA & LB & top & EV & RR) EC EP.
+  - (* statement: expression *) intros s reg e v s1 HE IHe r c f rest below pre post (MA & LB & top & EV & RR) FR EC EP.
     cbn [compile_stmt] in *.
     post_intro (IHe r c f rest pre post MA EC EP) r1 c1 f1 rest1 S1 M1 EV1 MV1 P1 K1.
     exists r1, c1, f1, rest1. split; [exact S1|]. split; [|split; [exact MV1|split; [exact P1|exact K1]]].
     split; [exact M1|]. split; [rewrite (moved_base _ _ MV1); exact LB|]. exists (cv v :: top). split; [rewrite EV1, EV; reflexivity|].
-    split; [reflexivity|]. exact (xev_not_none _ _ _ _ HE).
-  - (* statement: x = e *) intros s reg n e v s1 NN HE IHe NV r c f rest below pre post (MA & LB & top & EV & RR) EC EP.
+    split; [reflexivity|]. split; [exact (xev_not_none _ _ _ _ HE)|exact (fresh_under c top below EV FR)].
+  - (* statement: x = e *) intros s reg n e v s1 NN HE IHe NV r c f rest below pre post (MA & LB & top & EV & RR) FR EC EP.
     cbn [compile_stmt] in *. rewrite app_length. cbn [length]. rewrite <- app_assoc in EC.
     post_intro (IHe r c f rest pre ([IAssign n] ++ post) MA EC EP) r1 c1 f1 rest1 S1 M1 EV1 MV1 P1 K1.
     destruct (after_operands_code f f1 pre _ _ MV1 EC EP P1) as [EC1 EP1].
@@ -588,7 +588,7 @@ Proof.
     exists r2, c2, f2, rest2. split; [eapply steps_trans; eassumption|]. split.
     + split; [exact M2|]. split; [rewrite (moved_base _ _ MV2), (moved_base _ _ MV1); exact LB|]. exists top. split; [rewrite EV2; exact EV|exact RR].
     + split; [eapply moved_trans; eassumption|]. split; [rewrite P2, P1; lia|eapply kept_all_trans; eassumption].
-  - (* statement: private _x = e *) intros s reg n e v s1 NN HE IHe NV r c f rest below pre post (MA & LB & top & EV & RR) EC EP.
+  - (* statement: private _x = e *) intros s reg n e v s1 NN HE IHe NV r c f rest below pre post (MA & LB & top & EV & RR) FR EC EP.
     cbn [compile_stmt] in *. rewrite app_length. cbn [length]. rewrite <- app_assoc in EC.
     post_intro (IHe r c f rest pre ([IAssignLocal n] ++ post) MA EC EP) r1 c1 f1 rest1 S1 M1 EV1 MV1 P1 K1.
     destruct (after_operands_code f f1 pre _ _ MV1 EC EP P1) as [EC1 EP1].
@@ -598,21 +598,21 @@ Proof.
     exists r2, c2, f2, rest2. split; [eapply steps_trans; eassumption|]. split.
     + split; [exact M2|]. split; [rewrite (moved_base _ _ MV2), (moved_base _ _ MV1); exact LB|]. exists top. split; [rewrite EV2; exact EV|exact RR].
     + split; [eapply moved_trans; eassumption|]. split; [rewrite P2, P1; lia|eapply kept_all_trans; eassumption].
-  - (* empty block *) intros s reg r c f rest below pre post A EC EP.
+  - (* empty block *) intros s reg r c f rest below pre post A FR EC EP.
     exists r, c, f, rest. split; [apply StepsRefl|]. split; [exact A|]. split; [apply moved_refl|]. split; [cbn; lia|apply kept_all_refl].
-  - (* last statement *) intros s reg st reg1 s1 HS IHs r c f rest below pre post A EC EP.
+  - (* last statement *) intros s reg st reg1 s1 HS IHs r c f rest below pre post A FR EC EP.
     unfold compile_block in *. cbn [compile_block_from app] in *. rewrite app_nil_r in *.
-    exact (IHs r c f rest below pre post A EC EP).
-  - (* statement; block *) intros s reg st reg1 s1 st2 rest0 reg' s' HS IHs HB IHb r c f rest below pre post A EC EP.
+    exact (IHs r c f rest below pre post A FR EC EP).
+  - (* statement; block *) intros s reg st reg1 s1 st2 rest0 reg' s' HS IHs HB IHb r c f rest below pre post A FR EC EP.
     unfold compile_block in *. rewrite compile_block_from_cons in *. cbn [app] in *.
     rewrite compile_block_from_cons in EC. cbn [app] in EC. rewrite <- app_assoc in EC. cbn [app] in EC.
-    destruct (IHs r c f rest below pre _ A EC EP) as (r1 & c1 & f1 & rest1 & S1 & A1 & MV1 & P1 & K1).
+    destruct (IHs r c f rest below pre _ A FR EC EP) as (r1 & c1 & f1 & rest1 & S1 & A1 & MV1 & P1 & K1).
     assert (EC1 : f_code f1 = (pre ++ compile_stmt st) ++ IEnd :: compile_stmt st2 ++ compile_block_from false rest0 ++ post).
     { rewrite (moved_code _ _ MV1), EC, <- !app_assoc. reflexivity. }
     assert (EP1 : f_pos f1 = length (pre ++ compile_stmt st)) by (rewrite app_length, P1, EP; reflexivity).
-    destruct (end_run s1 reg1 r1 c1 f1 rest1 below _ _ A1 EC1 EP1) as (r2 & c2 & S2 & A2).
+    destruct (end_run s1 reg1 r1 c1 f1 rest1 below _ _ A1 EC1 EP1) as (r2 & c2 & S2 & A2 & FR2).
     set (f2 := set_pos f1 (S (f_pos f1))) in *.
-    destruct (IHb r2 c2 f2 rest1 below (pre ++ compile_stmt st ++ [IEnd]) post A2) as (r3 & c3 & f3 & rest3 & S3 & A3 & MV3 & P3 & K3).
+    destruct (IHb r2 c2 f2 rest1 below (pre ++ compile_stmt st ++ [IEnd]) post A2 FR2) as (r3 & c3 & f3 & rest3 & S3 & A3 & MV3 & P3 & K3).
     { cbn [f2 set_pos f_code]. rewrite EC1. try rewrite compile_block_from_cons. cbn [app]. rewrite <- !app_assoc. cbn [app]. reflexivity. }
     { cbn [f2 set_pos f_pos]. rewrite EP1, !app_length. cbn. lia. }
     exists r3, c3, f3, rest3. split; [eapply steps_trans; [exact S1|eapply steps_trans; [exact S2|exact S3]]|].
